@@ -10,6 +10,8 @@ mod cldb;
 mod cldbsrc;
 mod conv;
 mod deps;
+mod entry;
+mod purity;
 mod opt;
 mod reader;
 mod repl;
@@ -34,6 +36,9 @@ fn main() {
         "base" => base::run(&rest),
         "compile" => compile::run(&rest),
         "conv" => conv::run(&rest),
+        "entry" => entry::run(&rest),
+        "cldbmain" => entry::cldb_main(&rest),
+        "purity" => purity::run(&rest),
         "text" => text::run(&rest),
         "serde" => serde::run(&rest),
         "tables" => tables::run(&rest),
